@@ -10,7 +10,7 @@ git -C /repo worktree add -q --detach $W HEAD || exit 2
 ( cd $W/ociregistry && GOFLAGS=-mod=mod GOWORK=off GOPROXY=off GOSUMDB=off GOTOOLCHAIN=local go build ./... ) || { echo "does not build"; git -C /repo worktree remove --force $W; exit 2; }
 cd /verif
 for c in "$@"; do
-  out=$(VERIF_REPO=$W ./check $c $TIER 2>&1); rc=$?
+  out=$(VERIF_REPO=$W VERIF_EVIDENCE_DIR=/verif/.work/evidence-trials ./check $c $TIER 2>&1); rc=$?
   echo "== $c exit=$rc"; echo "$out" | grep -E "VIOLATION|rejected event|KNOWN-FINDING|MACHINERY|done:" | cut -c1-260 | head -8
 done
 git -C /repo worktree remove --force $W
